@@ -602,7 +602,7 @@ func Run(id string, start time.Time) int {
 		} else {
 			vs = judgeVar(id, c, res, recs)
 		}
-		rec := map[string]any{"family": c.Family, "way": c.Way, "task_args_hex": hexList(args), "task_args": quoteList(args), "env": quoteList(envv[1:]), "exit": res.Exit, "argv_recorded": quoteRecs(recs)}
+		rec := map[string]any{"family": c.Family, "way": c.Way, "task_args_hex": hexList(args), "task_args": quoteList(args), "env": quoteList(envv[1:]), "exit": res.Exit, "argv_recorded": quoteRecs(recs), "taskfile": files["Taskfile.yml"]}
 		if c.idx%211 == 0 {
 			part.Sample(rec, 6)
 		}
